@@ -289,10 +289,10 @@ def concretize_int(x, limit=64):
     if not isinstance(x, SymInt):
         return int(x)
     c = core.ctx()
-    t0 = T._subst(x.t)
-    if isinstance(t0, int):
-        return t0                # already determined by the path condition: no decision to take
     for _ in range(limit):
+        t0 = T._subst(x.t)
+        if isinstance(t0, int):
+            return t0            # (by now) determined by the path condition: no decision to take
         v = core.peek_aux()      # replaying: the candidate value is part of the recorded decision
         if v is None:
             v = T.ev(x.t, c.need_model())
@@ -559,7 +559,8 @@ class SymStr:
 
     def strip(self, chars=None):
         r = self.lstrip(chars)
-        return r.rstrip(chars) if isinstance(r, SymStr) else r.strip(chars)
+        if isinstance(r, str) and isinstance(chars, SymStr): r = SymStr(chars_of(r))
+        return r.rstrip(chars)
 
     def removeprefix(self, p):
         if decide(bt_any(self.startswith(p))): return mkstr(self.c[len(p):])
